@@ -1,10 +1,14 @@
 mod c11;
+mod c12;
+mod c13;
 mod c18;
 
 fn main() {
     let opts = bverif::engine::parse_args();
     let code = match opts.prop.as_str() {
         "C11" => c11::run(&opts),
+        "C12" => c12::run(&opts),
+        "C13" => c13::run(&opts),
         "C18" => c18::run(&opts),
         p => {
             eprintln!("poly: unknown property {p}");
